@@ -306,6 +306,12 @@ class Ctx:
             lines.append('KNOWN-FINDING: property=%s %s (%d case(s) this run, e.g. %s)' %
                          (self.prop, h['f']['what'], h['n'], json.dumps(h['example'].get('input', h['example']), default=str)[:200]))
         nviol = 0
+        import glob
+        for old in glob.glob(os.path.join(ROOT, 'replays', '%s-%s-*.json' % (self.prop, self.tier))):
+            try:
+                os.unlink(old)          # replay files of earlier runs of this check
+            except OSError:
+                pass
         for i, v in enumerate(self.violations):
             nviol += 1
             path = os.path.join(ROOT, 'replays', '%s-%s-%d.json' % (self.prop, self.tier, i))
